@@ -139,6 +139,11 @@ func (c *ProcChan) WaitStop() {
 func (c *ProcChan) addCallCtx(ctx context.Context, proc Proc) (*procChanCtxT, error) {
 	var procCtx = newProcChanCtx(ctx, proc)
 	select {
+	case <-c.stopChan:
+		return procCtx, ErrClosed
+	default:
+	}
+	select {
 	case c.ch <- procCtx:
 		return procCtx, nil
 	case <-c.stopChan:
